@@ -24,6 +24,7 @@ Record opts := {
   o_force : bool;
   o_space : space; o_sub : subspace; o_max_ids : Z;
   o_cols : N; o_rows : N;           (* as passed or as computed by build_image_instance *)
+  o_auto : bool;                    (* cols or rows not given: build_image_instance opens the image to compute them *)
   o_formats : list N;               (* get_supported_formats(), as tokens of lower-cased names *)
   o_file_max : Z; o_stream_max : Z;
   o_fit : N * N;                    (* (width, height) after max(1, floor(. * ratio)) *)
@@ -220,6 +221,9 @@ Definition step_gen (rebind : bool) (cd : codec) (s : sys) (r : request) : sys *
                       | SFile p => match s_fs s p with Some fi => IFile p (f_mtime fi) | None => IFile p 0%Z end
                       end in
           let i0 := {| n_src := isrc; n_cols := o_cols o; n_rows := o_rows o; n_id := 0 |} in
+          if o_auto o && match src with SFile p => match s_fs s p with None => true | Some _ => false end | SMem _ => false end
+          then (s, [ERaise])                 (* Image.open(path) raises FileNotFoundError before any id is assigned *)
+          else
           match get_id (s_db s) (enc cd (descr_of i0)) (o_space o) (o_sub o) (o_now o) (o_max_ids o) (o_samples o) (o_choice o) with
           | (GotId id, d') =>
               let i := {| n_src := isrc; n_cols := o_cols o; n_rows := o_rows o; n_id := id |} in
